@@ -4,5 +4,5 @@ import LettreVerif.Props.C01
 #print axioms LV.C01.spec_explicit_envelope
 #print axioms LV.C01.spec_calls_accumulate
 #print axioms LV.C01.builder_refines_spec
-#print axioms LV.C01.builder_refines_spec_dot_atoms
+#print axioms LV.C01.builder_refines_spec_unconditional
 #print axioms LV.C01.display_total
